@@ -245,6 +245,7 @@ def run_clicks(si, clicks, ac=False):
     root = shape(si)
     E = set()
     cookie, extra = None, {}
+    seen_e = []          # every expand link the tag has generated so far (path, encoded value): clicks 8..10 follow a STALE one
     for step in range(len(clicks) + 1):
         out, rows, links, cookie = render(root, cookie, extra, ac)
         want = model_rows(root, E)
@@ -268,11 +269,21 @@ def run_clicks(si, clicks, ac=False):
             return False
         if state_paths(st) != ({p for p in E} if ac else {p for p in E if node_at(root, p).kids}):
             return False
+        for (name, href, kind, val), p in zip(links, linked):
+            if kind == 'e' and (p, val) not in seen_e:
+                seen_e.append((p, val))
         if step == len(clicks):
             break
         c = clicks[step]
         extra = {}
-        if c == 0:
+        if c >= 8:
+            # a link from an EARLIER page (back button, second tab): expanding a node opens the whole path down to it
+            if not seen_e:
+                continue
+            p, val = seen_e[(c - 8) % len(seen_e)]
+            extra = {'tree-e': val}
+            E = E | {p[:i] for i in range(1, len(p) + 1)}
+        elif c == 0:
             extra = {'expand_all': 1}
             E = all_expandable(root)
         elif c == 1:
@@ -302,9 +313,12 @@ def make_clicks(L):
     return ob
 
 
-def make_clicks_shape(si, L, ac=False):
+def make_clicks_shape(si, L, ac=False, stale=False):
     def ob(c1: int, c2: int, c3: int, c4: int, c5: int) -> bool:
-        clicks = [pick(c, 8) for c in (c1, c2, c3, c4, c5)[:L]]
+        if stale:
+            clicks = [[0, 1, 2, 3, 4, 8, 9, 10][pick(c, 8)] for c in (c1, c2, c3, c4, c5)[:L]]
+        else:
+            clicks = [pick(c, 8) for c in (c1, c2, c3, c4, c5)[:L]]
         with NoTracing():
             return run_clicks(si, clicks, ac)
     ob.__name__ = 'ob_clicks_s%d_%d' % (si, L)
@@ -334,3 +348,10 @@ for _s in (0, 2, 6):
     OBLIGATIONS.append(Ob('clicks_assume_children_shape%d' % _s, make_clicks_shape(_s, LQ, True), PRE, timeout=tier(280, 1500), path_timeout=60,
                           data='click history of %d steps' % LQ, selectors='tree shape %d with the assume_children option (childless nodes can be "expanded")' % _s,
                           outside='single, leaves/header/footer documents', stubs='renders run untraced once shape and history are fixed on the path'))
+
+PRE_STALE = ['0 <= c%d < 8' % i for i in (1, 2, 3, 4, 5)]
+for _s in (1, 0):
+    OBLIGATIONS.append(Ob('clicks_stale_links_shape%d' % _s, make_clicks_shape(_s, LQ, False, True), PRE_STALE, timeout=tier(280, 1500), path_timeout=60,
+                          data='click history of %d steps: expand_all, collapse_all, one of the first three links of the current page, or one of the first three expand links the tag generated on EARLIER pages' % LQ,
+                          selectors='tree shape %d; following a stale expand link opens the whole path down to that node' % _s,
+                          outside='stale COLLAPSE links (what they do to collapsed ancestors is not stated)', stubs='renders run untraced once shape and history are fixed on the path'))
